@@ -1,14 +1,109 @@
-//! (rules to be transcribed)
+//! MT200, MT202 (incl. COV sequence B), MT204, MT205, MT210 — documented rules (doc comments of validate_* in
+//! /repo/src/messages/mt200.rs, mt202.rs, mt204.rs, mt205.rs, mt210.rs; SR2025 MT202 C1-C2, MT204 C1-C3, MT205 C1, MT210 C1-C3)
 use super::*;
 
-pub fn expected(_v: &RView) -> Expect {
+pub fn expected(v: &RView) -> Expect {
     let mut e = Expect::default();
-    // until transcribed: every code is undetermined (no verdict)
-    e.undet("*");
+    let top = v.top();
+    let seqs = v.seqs();
+    match v.mt {
+        "200" => {
+            // T80: "when field 72 contains /REJT/ or /RETN/, the message must follow the SWIFT Payments Reject/Return
+            // Guidelines". Whether a message follows the guidelines is not something the documentation defines, so the
+            // code is not judged whenever one of the two code words occurs in field 72 (in whatever position or case);
+            // without the code words the rule cannot be violated.
+            if let Some(n) = get(&top, "72") {
+                let up = n.content.to_uppercase();
+                if up.contains("REJT") || up.contains("RETN") {
+                    e.undet("T80");
+                }
+            }
+        }
+        "202" => {
+            // C1 (C81): 56a present in sequence A => 57a present in sequence A
+            e.must_if(has(&top, "56*") && !has(&top, "57*"), "C81");
+            // C2 (C68): 56a present in sequence B => 57a present in sequence B
+            for b in &seqs {
+                e.must_if(has(b, "56*") && !has(b, "57*"), "C68");
+            }
+        }
+        "205" => {
+            // C1 (C81): 56a present => 57a present
+            e.must_if(has(&top, "56*") && !has(&top, "57*"), "C81");
+        }
+        "204" => {
+            // C1 (C01): the amount in field 19 must equal the sum of the amounts in all occurrences of field 32B (exactly)
+            let amounts: Vec<DecStr> = seqs.iter().flat_map(|s| all(s, "32B")).filter_map(amount_of).collect();
+            if let Some(total) = get(&top, "19").and_then(amount_of) {
+                e.must_if(scaled(&total) != sum(&amounts), "C01");
+            }
+            // C2 (C02): the currency code in 32B must be the same for all occurrences
+            let ccys: BTreeSet<String> = seqs.iter().flat_map(|s| all(s, "32B")).map(ccy_of).collect();
+            e.must_if(ccys.len() > 1, "C02");
+            // C3 (T10): sequence B must not appear more than ten times
+            e.must_if(seqs.len() > 10, "T10");
+        }
+        "210" => {
+            // C1 (T10): the repetitive sequence must not appear more than ten times
+            e.must_if(seqs.len() > 10, "T10");
+            // C2 (C06): either 50a or 52a, but not both, must be present in each repetitive sequence
+            for s in &seqs {
+                e.must_if(has(s, "50*") == has(s, "52*"), "C06");
+            }
+            // C3 (C02): the currency code must be the same for all occurrences of 32B
+            let ccys: BTreeSet<String> = seqs.iter().flat_map(|s| all(s, "32B")).map(ccy_of).collect();
+            e.must_if(ccys.len() > 1, "C02");
+        }
+        _ => {}
+    }
     e
 }
 
 pub fn content_hook(mt: &str, tag: &str, src: &mut crate::choice::Src) -> Option<String> {
-    let _ = (mt, tag, src);
-    None
+    match (mt, tag) {
+        // MT204: few amounts, so that field 19 is often the exact sum, one cent / one unit off, or far off
+        ("204", "32B") => {
+            let c = *src.pick(&["USD", "USD", "USD", "USD", "USD", "EUR", "USD", "JPY"]);
+            let a = if c == "JPY" { *src.pick(&["100,", "100,", "50,"]) } else { *src.pick(&["100,", "100,", "100,", "100,", "100,00", "50,", "50,", "100,01"]) };
+            Some(format!("{c}{a}"))
+        }
+        // weighted towards the most frequent sums (100, 200, 150, 300), their neighbours at one cent / a fraction of a
+        // cent / one unit, and other spellings of the same number
+        ("204", "19") => Some(
+            src.pick(&[
+                "100,", "100,", "100,", "100,", "100,00", "200,", "200,", "200,", "150,", "150,", "300,", "50,", "100,01", "99,99", "200,01", "199,99", "200,02", "100,001", "200,005", "150,01", "100,010", "101,",
+                "250,", "1000,",
+            ])
+            .to_string(),
+        ),
+        ("210", "32B") => {
+            let c = *src.pick(&["USD", "USD", "USD", "USD", "EUR", "USD", "USD", "GBP"]);
+            let a = *src.pick(&["100,", "250,50", "1,", "99,99"]);
+            Some(format!("{c}{a}"))
+        }
+        ("200", "72") => {
+            if src.chance(2, 3) {
+                Some(
+                    src.pick(&[
+                        "/REJT/99\n/AC01/\n/MREF/REFERENCE1",
+                        "/RETN/99\n/AC01/\n/MREF/REFERENCE1",
+                        "/REJT/REJECT",
+                        "/RETN/99",
+                        "/RTND/RETURN REASON",
+                        "/ACC/INFORMATION",
+                        "/ACC/LINE ONE\n/REJT/LATER LINE",
+                        "/INS/ABCDUS33",
+                        "PLAIN TEXT",
+                        "/BNF/TEXT WITH /RETN/ INSIDE",
+                        "/REJ/X",
+                        "/RET/X",
+                    ])
+                    .to_string(),
+                )
+            } else {
+                None
+            }
+        }
+        _ => None,
+    }
 }
